@@ -285,6 +285,39 @@ def _returns_value_everywhere(fi) -> bool:
                              for r in own)
 
 
+_VALREF: Dict[int, Set[str]] = {}
+
+
+def _value_referenced(p) -> Set[str]:
+    """names of package functions that are stored somewhere as a value: an entry of a dict / list / tuple display, the right
+    side of an assignment, a returned value, an arm of a conditional expression (a table of builders, a selected strategy).
+    Handing a method to vmap / jit / scan does not count."""
+    k = id(p)
+    if k not in _VALREF:
+        fn_names = {fi.name for fi in list(p.functions.values()) + [m for c in p.classes.values() for m in c.methods.values()]
+                    if not isinstance(fi.node, ast.Lambda)}
+        out: Set[str] = set()
+        for mod in p.modules.values():
+            for par in ast.walk(mod.tree):
+                kids = []
+                if isinstance(par, ast.Dict):
+                    kids = list(par.values)
+                elif isinstance(par, (ast.List, ast.Tuple, ast.Set)):
+                    kids = list(par.elts)
+                elif isinstance(par, (ast.Assign, ast.AnnAssign, ast.Return)) and par.value is not None:
+                    kids = [par.value]
+                elif isinstance(par, ast.IfExp):
+                    kids = [par.body, par.orelse]
+                for n in kids:
+                    nm = n.id if isinstance(n, ast.Name) and isinstance(n.ctx, ast.Load) else (
+                        n.attr if isinstance(n, ast.Attribute) and isinstance(n.ctx, ast.Load) else None)
+                    if nm in fn_names:
+                        out.add(nm)
+        _VALREF.clear()
+        _VALREF[k] = out
+    return _VALREF[k]
+
+
 def _more_pitfalls(ctx, prop_id, files, by_name):
     """DISCARD-1, PARAM-1, TRI-1 over the files the property is anchored in."""
     p = ctx.p
@@ -346,6 +379,8 @@ def _more_pitfalls(ctx, prop_id, files, by_name):
             # PARAM-1: a parameter that a function accepts and never reads
             if fi.is_abstract or _is_stub(fi.node):
                 continue
+            if fi.name in _value_referenced(p):
+                continue          # handed around as a value (a table of builders, a callback): its signature is the table's
             reads = {n_.id for n_ in ast.walk(fi.node) if isinstance(n_, ast.Name) and isinstance(n_.ctx, ast.Load)}
             dead = [q.name for q in fi.params if q.name not in ("self", "cls") and not q.name.startswith("_")
                     and q.name not in reads and q.kind in ("pos", "kwonly")]
